@@ -52,6 +52,7 @@ type sbCase struct {
 	NModels     int        `json:"n_models"`
 	Gated       []bool     `json:"gated"`     // per model: its loads wait for an explicit loadok/loadfail action
 	AutoFail    []bool     `json:"auto_fail"` // outcome script of the loads of non-gated models (by birth order)
+	Perturb     uint32     `json:"perturb"`   // 0 = none; otherwise seed of the schedule perturbation at the scheduler's log points
 	Actions     []sbAction `json:"actions"`
 }
 
@@ -80,6 +81,9 @@ func sbGen(t *rapid.T) sbCase {
 		c.Gated = append(c.Gated, rapid.IntRange(0, 2).Draw(t, "gated") == 0)
 	}
 	c.AutoFail = rapid.SliceOfN(rapid.SampledFrom([]bool{false, false, false, true}), 6, 6).Draw(t, "auto_fail")
+	if rapid.IntRange(0, 2).Draw(t, "perturbed") > 0 {
+		c.Perturb = rapid.Uint32Range(1, 1<<30).Draw(t, "perturb")
+	}
 	n := rapid.IntRange(1, 40).Draw(t, "n_actions")
 	for i := 0; i < n; i++ {
 		var a sbAction
@@ -313,6 +317,7 @@ type sbEngine struct {
 	softs int
 	hards int
 	quiet bool // the last thing that happened was a hard settle
+	prop  string
 
 	draining   bool // from now on every load succeeds at once
 	autoBirths int
